@@ -78,3 +78,12 @@ package provider
 //@ ensures [build-failure-is-not-a-shot] imp(result_of(<-p.Sink, 1) && result_of(ammo.BuildRequest, 1) != nil, !result1)
 //@ at call httpProvider.NewGunAmmo assert [request-tag-and-a-new-id] arg(req) == result_of(ammo.BuildRequest, 0) && arg(tag) == result_of(ammo.Tag, 0) && arg(id) == result_of(p.NextID, 0)
 //@ at call ammo.BuildRequest assert [the-entry-received-from-the-decoder] arg(recv) == result_of(<-p.Sink, 0)
+
+// A preloaded provider owns its entries for the whole run; otherwise the decoder gets back what the gun returned.
+//@ func (p *Provider) Release
+//@ props C03 C14 C08
+//@ nilsafe
+//@ requires p != nil && p.Decoder != nil
+//@ ensures [preloaded-entries-are-kept] imp(p.Preload, calls(p.Decoder.Release) == 0)
+//@ ensures [otherwise-handed-back-to-the-decoder] imp(!p.Preload, calls(p.Decoder.Release) == 1)
+//@ at call p.Decoder.Release assert [what-the-gun-returned] arg(a0) == a0
